@@ -605,6 +605,21 @@ def _escapes(fa, starts, sites, extra_removed, edge_ok, targets, include_start=T
 # R1
 # =================================================================================================
 
+def _index_varies(fa, e, at):
+    """No element of the bulk answer is picked by a fixed position (`answer[0]`): a subscript with a constant index yields
+    the same element in every iteration, not the iteration's own."""
+    for x in ast.walk(e):
+        if isinstance(x, ast.Subscript) and not isinstance(x.slice, ast.Slice):
+            try:
+                atoms = fa.df.deps(x.slice, at)
+            except Exception:
+                return True
+            if atoms and all(a.startswith("const:") or a.startswith("op:") for a in atoms) and "op:elem" not in atoms:
+                if any(d.startswith("call:get_mementos") for d in fa.df.deps(x.value, at)):
+                    return False
+    return True
+
+
 def _r1_batch(ck, R1):
     br = nfa(ck, RL + ".LocalRunnerBackend.batch_run")
     seqs = batch_seqs(br)
@@ -654,7 +669,7 @@ def _r1_batch(ck, R1):
             dr = br.deps(s.result, s.at)
             okr = (home is not None and "bulk" in (home[1].elem_role(seqs, s.result_src, s.at) if s.result_src is not None else None,
                                                    home[1].elem_role(seqs, s.result, s.at))) \
-                or ("op:subscript" in dr and any(d.startswith("call:get_mementos") for d in dr))
+                or ("op:subscript" in dr and any(d.startswith("call:get_mementos") for d in dr) and _index_varies(br, s.result, s.at))
         oki = all(s.parts)
         ck.ob(R1, br.key(s.anchor, "args"), okc and okr and oki, "propagates the stored memento into the calling frame's memento" if okc and okr and oki else
               "batch pre-check propagates the wrong mementos (caller=%s, result=%s)" % (A.norm(s.caller), A.norm(s.result)) if oki else
@@ -1234,6 +1249,17 @@ def _ctor_arg_raw(ck, call, init_qual, name):
     """The argument expression (as written) a constructor call binds to parameter `name`, keyword or positional."""
     v = A.kwarg(call, name)
     if v is None:
+        # `Ctor(**{"name": value, ...})` / `Ctor(**dict(name=value, ...))`: keyword arguments written as a mapping display
+        for k in call.keywords:
+            if k.arg is not None:
+                continue
+            if isinstance(k.value, ast.Dict) and all(kk is not None and A.const_str(kk) is not None for kk in k.value.keys):
+                for kk, vv in zip(k.value.keys, k.value.values):
+                    if A.const_str(kk) == name:
+                        v = vv
+            elif isinstance(k.value, ast.Call) and isinstance(k.value.func, ast.Name) and k.value.func.id == "dict" and not k.value.args:
+                v = A.kwarg(k.value, name) or v
+    if v is None:
         init = ck.repo.try_func(init_qual)
         if init is not None:
             params = [a.arg for a in init.node.args.posonlyargs + init.node.args.args][1:]
@@ -1257,7 +1283,37 @@ def _display_elements(e):
             return []
         if len(e.args) == 1 and isinstance(e.args[0], (ast.Set, ast.List, ast.Tuple)) and not any(isinstance(x, ast.Starred) for x in e.args[0].elts):
             return list(e.args[0].elts)
+        if len(e.args) == 1 and isinstance(e.args[0], (ast.GeneratorExp, ast.ListComp, ast.SetComp)):
+            return _comprehension_elements(e.args[0])
+    if isinstance(e, (ast.SetComp, ast.ListComp)):
+        return _comprehension_elements(e)
     return None
+
+
+def _comprehension_elements(e):
+    """`{f(x) for x in (a, b)}`: one unconditional generator over a display -> [f(a), f(b)]"""
+    import copy
+    if len(e.generators) != 1:
+        return None
+    gen = e.generators[0]
+    if gen.ifs or gen.is_async or not isinstance(gen.target, ast.Name) or not isinstance(gen.iter, (ast.Tuple, ast.List, ast.Set)) \
+            or any(isinstance(x, ast.Starred) for x in gen.iter.elts):
+        return None
+    var = gen.target.id
+    if any(isinstance(x, (ast.Lambda, ast.ListComp, ast.SetComp, ast.GeneratorExp, ast.DictComp, ast.NamedExpr)) for x in ast.walk(e.elt)):
+        return None
+
+    class S(ast.NodeTransformer):
+        def __init__(self, by):
+            self.by = by
+
+        def visit_Name(self, n):
+            return copy.deepcopy(self.by) if n.id == var and isinstance(n.ctx, ast.Load) else n
+    out = []
+    for x in gen.iter.elts:
+        y = S(x).visit(copy.deepcopy(e.elt))
+        out.append(x if isinstance(e.elt, ast.Name) and e.elt.id == var else ast.fix_missing_locations(ast.copy_location(y, x)))
+    return out
 
 
 class Built:
@@ -1338,7 +1394,9 @@ def _r4(ck, R4):
     inv = Built(sfi, _ctor_arg_raw(ck, im, IMI, "invocations"), iat, "self.memento.invocation_metadata.invocations")
     res = Built(sfi, _ctor_arg_raw(ck, im, IMI, "resources"), iat, "self.memento.invocation_metadata.resources")
     shared = _mutable_default_reaches_record(ck, "call_stack")
-    ok5 = inv.texts() == [] and res.texts() == [] and isinstance(inv.leaf, ast.List) and isinstance(res.leaf, ast.List) and inv.leaf is not res.leaf and shared is None
+    def fresh_list(e):
+        return isinstance(e, ast.List) or (isinstance(e, ast.Call) and isinstance(e.func, ast.Name) and e.func.id == "list" and not e.args and not e.keywords)
+    ok5 = inv.texts() == [] and res.texts() == [] and fresh_list(inv.leaf) and fresh_list(res.leaf) and inv.leaf is not res.leaf and shared is None
     ck.ob(R4, sfi.key(None, "fresh-lists"), ok5, "invocations and resources start as fresh empty lists" if ok5 else
           ("a new frame does not start with fresh empty invocation/resource lists" if shared is None else
            "the frame's record is built from parameter `%s` of %s, whose default value is one list shared by every frame" % (shared[1], shared[0].qual)), sfi.where(im))
@@ -1397,6 +1455,455 @@ def _r6(ck, R6):
           "batches [a, b, a] gets two invocations recorded instead of three", cb.where())
 
 
+# =================================================================================================
+# R7: the stack a call reads and writes is its own thread's
+# =================================================================================================
+# The frame a finished sub-call propagates into is "the top of the stack CallStack.get() hands out".  That is the frame of the
+# call whose body made the sub-call only if no other call chain that runs at the same time pushes on the same stack object:
+# the stack has to live in a slot of a threading.local() object, where a thread finds nothing but what its own code put
+# there, and what is put there has to be a stack nobody else holds (created on the spot, or handed to swap()).  A
+# module-level variable, a table keyed by something, a contextvars.ContextVar (a copied context -- asyncio.to_thread, task
+# creation, copy_context().run -- copies the REFERENCE to the one mutable stack) do not give that.
+
+def _imported_full(mod, d):
+    """dotted name `d` as written in module `mod` -> the dotted name it denotes after the module's imports"""
+    if d is None:
+        return None
+    head, _, rest = d.partition(".")
+    imp = mod.imports.get(head)
+    if imp is None:
+        return d
+    if ":" in imp:
+        m_, n_ = imp.split(":")
+        base = (m_.lstrip(".") + "." if m_.lstrip(".") else "") + n_
+        return base + ("." + rest if rest else "")
+    if imp == head or imp.startswith(head + "."):
+        return d
+    return imp + ("." + rest if rest else "")
+
+
+def _is_thread_local_class(repo, ci, _depth=0):
+    for b in ci.base_exprs:
+        if _imported_full(ci.module, b) == "threading.local":
+            return True
+        bc = repo.resolve_base(ci, b)
+        if bc is not None and _depth < 4 and _is_thread_local_class(repo, bc, _depth + 1):
+            return True
+    return False
+
+
+def _holder_kind(repo, mod, v):
+    """What a module-level value is, as a place to keep per-execution state: ('thread-local', class or None) for
+    threading.local() / an instance of a subclass of it, ('context-var', None) for contextvars.ContextVar(...), else None."""
+    if not isinstance(v, ast.Call):
+        return None
+    d = A.dotted(v.func)
+    full = _imported_full(mod, d)
+    if full == "threading.local":
+        return ("thread-local", None)
+    if full in ("contextvars.ContextVar", "aiocontextvars.ContextVar"):
+        return ("context-var", None)
+    if d is not None and "." not in d:
+        ci = mod.classes.get(d)
+        if ci is None and d in mod.imports and ":" in mod.imports[d]:
+            m_, n_ = mod.imports[d].split(":")
+            mm = repo.modules.get(m_.lstrip(".").split(".")[-1])
+            ci = mm.classes.get(n_) if mm else None
+        if ci is not None and _is_thread_local_class(repo, ci):
+            return ("thread-local", ci)
+    return None
+
+
+class StackHome:
+    """Where the call stack of the running thread is kept, and what is put there."""
+
+    def __init__(self, ck):
+        self.ck = ck
+        self.mod = ck.repo.module("call_stack")
+        self.get = FA(ck, "call_stack.CallStack.get")
+        self.cls = self.get.fi.cls
+        self.stack_class = self.cls.name if self.cls is not None else "CallStack"
+        # module-level holders of the call_stack module, by name
+        self.kinds = {}
+        for n, v in self.mod.assigns.items():
+            k = _holder_kind(ck.repo, self.mod, v)
+            if k is not None:
+                self.kinds[n] = k
+
+    # ---- designators -------------------------------------------------------------
+    def holder_name(self, fa, e, at):
+        """the module-level holder `e` designates at `at` (directly or through a local alias) -> its name in call_stack, or None"""
+        try:
+            x = fa.expand(e, at) if at is not None else e
+        except AnalysisError:
+            x = e
+        if not isinstance(x, ast.Name):
+            return None
+        if at is not None and fa.df.reaching(at, x.id):
+            return None  # a local / a parameter of that name
+        if x.id not in self.kinds and x.id not in fa.fi.module.imports:
+            # a local alias bound outside the piece of code under analysis (a handler body analysed on its own)
+            whole = self.ck.repo.try_func(fa.fi.qual)
+            vals = [v for st in (A.all_stmts(whole.node) if whole is not None else []) if isinstance(st, ast.Assign)
+                    for t in st.targets if isinstance(t, ast.Name) and t.id == x.id for v in [st.value]]
+            if vals and all(isinstance(v, ast.Name) and v.id != x.id for v in vals) and len({v.id for v in vals}) == 1 and x.id not in whole.params:
+                x = vals[0]
+            else:
+                return None
+        if fa.fi.module is self.mod:
+            return x.id if x.id in self.kinds else None
+        imp = fa.fi.module.imports.get(x.id, "")
+        if ":" in imp and imp.split(":")[0].lstrip(".").split(".")[-1] == "call_stack" and imp.split(":")[1] in self.kinds:
+            return imp.split(":")[1]
+        return None
+
+    def own_instance(self, fa, e):
+        """`self` inside a method of a threading.local subclass: the running thread's instance state"""
+        fi = fa.fi
+        while fi is not None and fi.cls is None and fi.parent is not None:
+            fi = fi.parent
+        return isinstance(e, ast.Name) and fi is not None and fi.cls is not None and fi.params and e.id == fi.params[0] \
+            and not fi.is_static and not fi.is_classmethod and _is_thread_local_class(self.ck.repo, fi.cls)
+
+    def _dict_of(self, fa, e, at):
+        """`H.__dict__` / `vars(H)` -> H's name"""
+        try:
+            x = fa.expand(e, at) if at is not None else e
+        except AnalysisError:
+            x = e
+        if isinstance(x, ast.Attribute) and x.attr == "__dict__":
+            return self.holder_name(fa, x.value, at)
+        if isinstance(x, ast.Call) and isinstance(x.func, ast.Name) and x.func.id == "vars" and len(x.args) == 1:
+            return self.holder_name(fa, x.args[0], at)
+        return None
+
+    def slot_read(self, fa, e, at):
+        """-> (holder name, slot name, [default expressions]) when `e` reads a slot of a module-level holder object"""
+        if isinstance(e, ast.Attribute):
+            h = self.holder_name(fa, e.value, at)
+            if h is not None:
+                return (h, e.attr, [])
+            if self.own_instance(fa, e.value):
+                return ("<self>", e.attr, [])
+        if isinstance(e, ast.Call) and isinstance(e.func, ast.Name) and e.func.id == "getattr" and len(e.args) >= 2 and A.const_str(e.args[1]) is not None:
+            h = self.holder_name(fa, e.args[0], at)
+            if h is not None:
+                return (h, A.const_str(e.args[1]), list(e.args[2:]))
+        if isinstance(e, ast.Subscript):
+            h = self._dict_of(fa, e.value, at)
+            k = A.const_str(e.slice) if not isinstance(e.slice, ast.Slice) else None
+            if h is not None and k is not None:
+                return (h, k, [])
+        if isinstance(e, ast.Call) and isinstance(e.func, ast.Attribute) and e.func.attr in ("get", "setdefault") and e.args and not e.keywords:
+            h = self._dict_of(fa, e.func.value, at)
+            k = A.const_str(e.args[0])
+            if h is not None and k is not None:
+                return (h, k, list(e.args[1:]))
+        return None
+
+    def slot_stores(self, fa):
+        """[(statement, holder, slot, value expression)] for every place of `fa` that puts something into a slot of a holder"""
+        out = []
+        for s in fa.stmts((ast.Assign, ast.AnnAssign)):
+            v = getattr(s, "value", None)
+            if v is None:
+                continue
+            tg = s.targets if isinstance(s, ast.Assign) else [s.target]
+            ids = fa.nodes(s)
+            at = ids[0] if ids else None
+            for t in tg:
+                if isinstance(t, (ast.Tuple, ast.List)):
+                    parts = list(zip(t.elts, v.elts)) if isinstance(v, (ast.Tuple, ast.List)) and len(v.elts) == len(t.elts) else [(x, v) for x in t.elts]
+                else:
+                    parts = [(t, v)]
+                for (t1, v1) in parts:
+                    if isinstance(t1, ast.Attribute):
+                        h = self.holder_name(fa, t1.value, at)
+                        if h is None and self.own_instance(fa, t1.value):
+                            h = "<self>"
+                        if h is not None:
+                            out.append((s, h, t1.attr, v1))
+                    elif isinstance(t1, ast.Subscript) and not isinstance(t1.slice, ast.Slice):
+                        h = self._dict_of(fa, t1.value, at)
+                        if h is not None:
+                            out.append((s, h, A.const_str(t1.slice), v1))
+        for c in fa.calls():
+            st = fa.stmt_of(c)
+            ids = fa.nodes(st) if st is not None else []
+            at = ids[0] if ids else None
+            if isinstance(c.func, ast.Name) and c.func.id == "setattr" and len(c.args) == 3:
+                h = self.holder_name(fa, c.args[0], at)
+                if h is None and self.own_instance(fa, c.args[0]):
+                    h = "<self>"
+                if h is not None:
+                    out.append((st, h, A.const_str(c.args[1]), c.args[2]))
+            elif isinstance(c.func, ast.Attribute) and c.func.attr == "setdefault" and len(c.args) == 2:
+                h = self._dict_of(fa, c.func.value, at)
+                if h is not None:
+                    out.append((st, h, A.const_str(c.args[0]), c.args[1]))
+            elif isinstance(c.func, ast.Attribute) and c.func.attr == "set" and len(c.args) == 1 and not c.keywords:
+                h = self.holder_name(fa, c.func.value, at)
+                if h is not None and self.kinds[h][0] == "context-var":
+                    out.append((st, h, None, c.args[0]))
+        return out
+
+    def is_fresh(self, fa, e):
+        """`CallStack()`: a stack nobody else holds"""
+        if not isinstance(e, ast.Call) or e.args or e.keywords:
+            return False
+        f = e.func
+        if isinstance(f, ast.Name):
+            own = fa.fi
+            if own.cls is not None and own.cls.name == self.stack_class and own.module is self.mod and own.is_classmethod and own.params and f.id == own.params[0]:
+                return True   # `cls()` in a class method of the stack class
+            if f.id == self.stack_class and (fa.fi.module is self.mod or fa.fi.module.imports.get(f.id, "").endswith(":" + self.stack_class)):
+                return True
+            imp = fa.fi.module.imports.get(f.id, "")
+            return ":" in imp and imp.split(":")[1] == self.stack_class and imp.split(":")[0].lstrip(".").split(".")[-1] == "call_stack"
+        return False
+
+    def leaves(self, fa, e, at, depth=8, _seen=None):
+        """the expressions `e` may evaluate to at `at`: locals followed through all their plain assignments, conditional
+        expressions / `a or b` / `(x := v)` through their parts -> [(expression, node)]"""
+        seen = _seen if _seen is not None else set()
+        if isinstance(e, ast.IfExp):
+            return self.leaves(fa, e.body, at, depth, seen) + self.leaves(fa, e.orelse, at, depth, seen)
+        if isinstance(e, ast.BoolOp):
+            out = []
+            for v in e.values:
+                out += self.leaves(fa, v, at, depth, seen)
+            return out
+        if isinstance(e, ast.NamedExpr):
+            return self.leaves(fa, e.value, at, depth, seen)
+        if isinstance(e, ast.Name) and depth > 0 and at is not None:
+            ds = fa.df.reaching(at, e.id)
+            if ds and all(d.kind == "assign" and d.value is not None and d.node >= 0 for d in ds):
+                out = []
+                for d in ds:
+                    if (d.node, d.name) in seen:
+                        continue
+                    seen.add((d.node, d.name))
+                    out += self.leaves(fa, d.value, d.node, depth - 1, seen)
+                return out
+        return [(e, at)]
+
+    def callee(self, fa, e):
+        """the function of the package a call expression runs, when that is evident: `helper()`, `CallStack.helper()`"""
+        if not isinstance(e, ast.Call) or e.args or e.keywords:
+            return None
+        f = e.func
+        m = fa.fi.module
+        if isinstance(f, ast.Name) and f.id in m.functions:
+            return m.functions[f.id]
+        if isinstance(f, ast.Attribute) and isinstance(f.value, ast.Name) and f.value.id in m.classes:
+            fi = self.ck.repo.find_method(m.classes[f.value.id], f.attr)
+            return fi if fi is not None and (fi.is_static or fi.is_classmethod) else None
+        return None
+
+    def handed_out(self, fa, rets, _depth=0):
+        """[(fa, leaf expression, node)] for everything the given return statements may hand out; an argument-less call of a
+        helper of the package stands for what the helper returns"""
+        from .c09 import _fa_reaching
+        from .cache_model import value_sources
+        out = []
+        for r in rets:
+            gr = fa if fa.nodes(r) else _fa_reaching(self.ck, fa, r)
+            if r.value is None:
+                continue
+            srcs = value_sources(gr, r) if gr.nodes(r) else [(r.value, None)]
+            for (v, vat) in srcs:
+                for (leaf, lat) in self.leaves(gr, v, vat):
+                    fi = self.callee(gr, leaf) if _depth < 3 else None
+                    if fi is not None and fi.qual != fa.fi.qual:
+                        sub = FA(self.ck, fi)
+                        out += [(a, b, c, r) for (a, b, c, _r) in self.handed_out(sub, sub.returns(), _depth + 1)]
+                    else:
+                        out.append((gr, leaf, lat, r))
+        return out
+
+    def describe(self, fa, e, at):
+        """why `e` is not the running thread's own stack, in words (for the report)"""
+        if isinstance(e, ast.Call) and isinstance(e.func, ast.Attribute) and e.func.attr == "get":
+            h = self.holder_name(fa, e.func.value, at)
+            if h is not None and self.kinds[h][0] == "context-var":
+                return ("what is read from the context variable `%s`: a copied context (asyncio task, asyncio.to_thread, copy_context().run) "
+                        "carries the reference to the same mutable stack, so calls running at the same time push on one list" % h)
+        if isinstance(e, ast.Name):
+            if at is not None and any(d.kind == "param" for d in fa.df.reaching(at, e.id)):
+                return "the parameter `%s`" % e.id
+            return "the module-level / shared variable `%s`" % e.id
+        return "`%s`, which is not a slot of a threading.local() object" % A.short(e, 60)
+
+
+def _at(fa, st):
+    ids = fa.nodes(st) if st is not None else []
+    return ids[0] if ids else None
+
+
+def _r7(ck, R7):
+    from .c09 import _fa_reaching
+    home = StackHome(ck)
+    g = home.get
+    tl = sorted(n for n, k in home.kinds.items() if k[0] == "thread-local")
+
+    def per_thread(h):
+        return h == "<self>" or home.kinds[h][0] == "thread-local"
+
+    def same_slot(a, b):
+        """two slot designations name one slot (`self.x` inside the thread-local subclass is `<holder>.x` outside it)"""
+        if a[1] != b[1]:
+            return False
+        if a[0] == b[0]:
+            return True
+        other = b[0] if a[0] == "<self>" else a[0] if b[0] == "<self>" else None
+        return other is not None and other != "<self>" and home.kinds[other][1] is not None
+
+    # ---- (a) what is put into a slot of a holder, anywhere in the package
+    stores = []          # (fa, statement, holder, slot, [(leaf, node, what)])  what: fresh / swapped / same / none / other
+    for m in ck.repo.modules.values():
+        if m is not home.mod and not any(":" in v and v.split(":")[0].lstrip(".").split(".")[-1] == "call_stack" for v in m.imports.values()):
+            continue
+        aliases = set(home.kinds) if m is home.mod else {n for n, v in m.imports.items() if ":" in v and v.split(":")[1] in home.kinds
+                                                         and v.split(":")[0].lstrip(".").split(".")[-1] == "call_stack"}
+        for fi in m.all_funcs():
+            # only code that names a holder object (or is a method of a thread-local class) can put something into one
+            top = fi
+            while top.cls is None and top.parent is not None:
+                top = top.parent
+            if not (aliases & {x.id for x in ast.walk(fi.node) if isinstance(x, ast.Name)}) \
+                    and not (top.cls is not None and _is_thread_local_class(ck.repo, top.cls)):
+                continue
+            fa0 = FA(ck, fi)
+            for (st, h, slot, v) in home.slot_stores(fa0):
+                fa = _fa_reaching(ck, fa0, st)
+                at = _at(fa, st)
+                what = []
+                for (leaf, lat) in home.leaves(fa, v, at):
+                    sr = home.slot_read(fa, leaf, lat)
+                    if home.is_fresh(fa, leaf):
+                        what.append((leaf, lat, "fresh"))
+                    elif A.is_none(leaf):
+                        what.append((leaf, lat, "none"))
+                    elif sr is not None and same_slot((sr[0], sr[1]), (h, slot)):
+                        what.append((leaf, lat, "same"))
+                    elif isinstance(leaf, ast.Name) and fi.qual == "call_stack.CallStack.swap" and leaf.id in fi.params:
+                        what.append((leaf, lat, "swapped"))
+                    else:
+                        what.append((leaf, lat, "other"))
+                stores.append((fa, st, h, slot, what))
+    fresh_home = {id(leaf): (h, slot) for (_fa, _st, h, slot, what) in stores for (leaf, _n, w) in what if w == "fresh"}
+
+    # ---- (b) CallStack.get hands out the content of a per-thread slot (or the stack it has just put there) on every return
+    rets = g.returns()
+    ck.need(rets, "call_stack.CallStack.get: no return statement")
+    handed = home.handed_out(g, rets)
+    read_slots = set()
+    made = []
+    verdicts = {}
+    for r in rets:
+        verdicts[id(r)] = [r, False, None]
+    for (gr, leaf, lat, r) in handed:
+        rec = verdicts[id(r)]
+        if A.is_none(leaf):
+            continue
+        rec[1] = True
+        sr = home.slot_read(gr, leaf, lat)
+        if sr is not None:
+            h, slot, defaults = sr
+            if not per_thread(h):
+                rec[2] = rec[2] or (gr, leaf, lat, None)
+                continue
+            read_slots.add((h, slot))
+            for d in defaults:
+                for (dl, dat) in home.leaves(gr, d, lat):
+                    if A.is_none(dl) or (home.is_fresh(gr, dl) and id(dl) in fresh_home):
+                        continue
+                    rec[2] = rec[2] or (gr, dl, dat, "a stand-in that is not stored in the slot")
+            continue
+        if home.is_fresh(gr, leaf):
+            where_ = fresh_home.get(id(leaf))
+            if where_ is None:
+                where_ = _fresh_reaches_slot(home, gr, leaf)
+            if where_ is not None and per_thread(where_[0]):
+                made.append((rec, gr, leaf, lat, where_))
+                continue
+            rec[2] = rec[2] or (gr, leaf, lat, "a new stack that is not kept in the running thread's slot: the next get() in the same thread gets another "
+                                               "one, and the frames pushed on this one are lost to the sub-calls")
+            continue
+        rec[2] = rec[2] or (gr, leaf, lat, None)
+    for (rec, gr, leaf, lat, where_) in made:
+        # the stack just made is what the NEXT get() of the thread finds: it sits in a slot that get reads
+        if not any(same_slot(where_, rs) for rs in read_slots):
+            rec[2] = rec[2] or (gr, leaf, lat, "a new stack that it keeps in the slot `%s.%s`, where it never looks again (it reads %s): the next get() in the same "
+                                               "thread makes another one, and the frames pushed on this one are lost to the sub-calls" %
+                                (where_[0], where_[1], ", ".join(sorted("%s.%s" % rs for rs in read_slots)) or "no slot"))
+    for (r, seen_any, bad) in verdicts.values():
+        ok = seen_any and bad is None
+        ck.ob(R7, g.key(r, "get-returns-own-stack"), ok, "CallStack.get hands out the content of the running thread's slot" if ok else
+              "CallStack.get hands out %s: the frame a finished sub-call is recorded in is then not necessarily the frame of the call whose body made it" %
+              ((bad[3] or home.describe(bad[0], bad[1], bad[2])) if bad else "nothing"), g.where(r))
+
+    # ---- (a, continued) the slots get reads are given nothing but a stack created on the spot, the stack handed to swap, what
+    # was there before, or nothing; and a stack created for a slot goes into a slot that get reads
+    for (fa, st, h, slot, what) in stores:
+        if not per_thread(h):
+            continue   # judged where it is read, (b)
+        is_read = any(same_slot((h, slot), rs) for rs in read_slots)
+        makes = [x for x in what if x[2] in ("fresh", "swapped")]
+        if not is_read and not makes:
+            continue   # some other per-thread state
+        bad = [x for x in what if x[2] == "other"]
+        if is_read:
+            ok = not bad
+            ck.ob(R7, fa.key(st, "stored-stack-is-own"), ok, "what goes into the thread's slot is a stack created on the spot (or handed to swap)" if ok else
+                  "the slot `%s.%s`, from which CallStack.get takes the running thread's stack, is given %s: every thread that passes here works on that one "
+                  "stack, so a call is recorded as an invocation of whatever call is on top in another thread" % (h, slot, home.describe(fa, bad[0][0], bad[0][1])), fa.where(st))
+        else:
+            ck.ob(R7, fa.key(st, "stack-stored-where-get-reads"), False, "the new stack is put into the slot `%s.%s`, which CallStack.get does not read (it hands out %s): "
+                  "the thread's stack is not the one its calls push their frames on" % (h, slot, ", ".join(sorted("%s.%s" % rs for rs in read_slots)) or "no slot"), fa.where(st))
+
+    # ---- (c) there is such a slot at all
+    ok = bool(tl) and bool(read_slots)
+    ck.ob(R7, "call_stack::stack-lives-in-thread-local", ok, "the call stack is kept in a threading.local() object (%s)" % ", ".join(tl) if ok else
+          "the stack that CallStack.get() hands out is not kept in a threading.local() object, hence not private to the running thread" +
+          ("".join("; `%s` is a context variable, whose value (one mutable stack) is shared by reference with every copied context" % n
+                   for n, k in sorted(home.kinds.items()) if k[0] == "context-var")), home.mod.relpath)
+
+    # ---- (d) a thread-local subclass must not carry the stack as a class attribute (shared by all threads)
+    for n, k in sorted(home.kinds.items()):
+        ci = k[1]
+        if k[0] != "thread-local" or ci is None:
+            continue
+        for st in ci.node.body:
+            if isinstance(st, (ast.Assign, ast.AnnAssign)) and getattr(st, "value", None) is not None:
+                tg = st.targets if isinstance(st, ast.Assign) else [st.target]
+                if not any(isinstance(t, ast.Name) and any(t.id == rs[1] for rs in read_slots) for t in tg) or A.is_none(st.value):
+                    continue
+                ck.ob(R7, ci.qual + "::" + A.head(st, 60) + "::class-level-stack", False,
+                      "the slot CallStack.get reads is a class attribute of the thread-local class %s: class attributes are shared by all threads" % ci.name, A.loc(ci, st))
+
+
+def _fresh_reaches_slot(home, fa, call):
+    """A new stack bound to a local first: every way on from there to the function's exit stores that very local into a slot of
+    a thread-local holder -> that slot, or None."""
+    st = fa.stmt_of(call)
+    if not isinstance(st, ast.Assign) or st.value is not call:
+        return None
+    names = [t.id for t in st.targets if isinstance(t, ast.Name)]
+    for nm in names:
+        stores, dest = [], None
+        for (s2, h, slot, v) in home.slot_stores(fa):
+            if not (isinstance(v, ast.Name) and v.id == nm) or (h != "<self>" and home.kinds[h][0] != "thread-local"):
+                continue
+            if all(len(fa.df.reaching(i, nm)) == 1 and fa.df.reaching(i, nm)[0].node in fa.nodes(st) for i in fa.nodes(s2)):
+                stores.append(s2)
+                dest = dest or (h, slot)
+        sn = fa.nodes_all(stores)
+        if stores and all(fa.cfg.exit not in fa.cfg.reach([i], removed=sn, include_start=False) for i in fa.nodes(st)):
+            return dest
+    return None
+
+
 def check(ck):
     from .memo import check_new_memo_tables
     ck.run(check_new_memo_tables, ck, "C10.M1", ('runner_local', 'call_stack', 'resource_function', 'serialization', 'metadata'))
@@ -1422,3 +1929,7 @@ def check(ck):
     ck.run(_r6, ck, "C10.R6")
     from .c11 import check_decoders_pure
     ck.run(check_decoders_pure, ck, "C10.R6")
+    # ---- R7: the caller's frame is found on a stack that only the running thread's calls push on
+    ck.rule("C10.R7", "the stack CallStack.get hands out is the content of a slot of a threading.local() object, and what is put into "
+                      "that slot is a stack created on the spot (or handed to swap): no call chain running at the same time pushes on it", 3)
+    ck.run(_r7, ck, "C10.R7")
